@@ -1,12 +1,12 @@
 (* C05 — Fragmented samples are reassembled byte-identically for any size.
    Statements over the model Proto/FragModel.v (as_data_frag_submessage, the writer's fragment
    emission and NACK_FRAG / ACKNACK answers, RtpsWriterProxy push / total_fragments_expected /
-   reconstruct_data_from_frag / NACK_FRAG generation, RtpsStatefulReader::on_data_frag_submessage).
-   Positive half: byte identity for all payloads, all fragment sizes 1..65535, all arrival orders,
-   duplications, losses and interleavings.  Negative half (the `lost (reliable)` clause and the
-   NACK_FRAG numbering are FALSE on the code as it is): universal refutations + witnesses. *)
+   reconstruct_data_from_frag / NACK_FRAG generation, RtpsStatefulReader::on_data_frag_submessage),
+   which follows /repo after the six C05 fix commits.  Byte identity for all payloads, all fragment
+   sizes 1..65535, all arrival orders, duplications, losses and interleavings; and the repair half:
+   every NACK_FRAG is fresh and processed, the fragment resent for number n is fragment n, lost
+   fragments of a reliable sample are repaired by heartbeat -> NACK_FRAG -> resend rounds. *)
 From DustDDS Require Import Base.Machine Proto.FragModel Proto.FragProofs.
-
 Open Scope Z_scope.
 
 (* ------------------------------------------------------------------ writer side *)
@@ -40,42 +40,46 @@ Proof. exact expected_count_is_ceil. Qed.
 
 (* ------------------------------------------------------------------ RtpsWriterProxy level *)
 
-(* l: ANY list of received DATA_FRAGs in which everything that speaks for sn is a fragment of p
-   (so: any permutation, any duplication, interleaved with fragments of any other sequence numbers).
+(* l: ANY list of received DATA_FRAGs in which everything that speaks for sn is a fragment of p,
+   addressed to whichever reader (so: any permutation, any duplication, copies for other readers of
+   the participant, interleaved with fragments of any other sequence numbers).
    If every fragment of p occurs in l, reconstruct returns exactly p and removes sn's fragments. *)
 Theorem C05_reassemble_any_order :
-  forall f rid sn (p : bytes) (l : list frag),
+  forall f sn (p : bytes) (l : list frag),
     0 < f < 65536 -> blen p < two32 -> 1 <= div_ceil (blen p) f ->
-    (forall x, In x l -> fr_sn x = sn -> exists i, 0 <= i < div_ceil (blen p) f /\ x = mk_data_frag rid sn p f i) ->
-    (forall i, 0 <= i < div_ceil (blen p) f -> In (mk_data_frag rid sn p f i) l) ->
+    (forall x, In x l -> fr_sn x = sn ->
+       exists rid i, 0 <= i < div_ceil (blen p) f /\ x = mk_data_frag rid sn p f i) ->
+    (forall i, 0 <= i < div_ceil (blen p) f -> exists rid, In (mk_data_frag rid sn p f i) l) ->
     reconstruct (fold_left push_frag l []) sn =
       Ok (Some p, filter (fun x => negb (has_sn sn x)) (fold_left push_frag l [])).
 Proof. exact C05_reassemble_any_order_stmt. Qed.
 
 (* ... and from an incomplete set it returns nothing, never a wrong payload, never a panic *)
 Theorem C05_incomplete_set_gives_nothing :
-  forall f rid sn (p : bytes) (l : list frag),
+  forall f sn (p : bytes) (l : list frag),
     0 < f < 65536 -> blen p < two32 ->
-    (forall x, In x l -> fr_sn x = sn -> exists i, 0 <= i < div_ceil (blen p) f /\ x = mk_data_frag rid sn p f i) ->
-    ~ (forall i, 0 <= i < div_ceil (blen p) f -> In (mk_data_frag rid sn p f i) l) ->
+    (forall x, In x l -> fr_sn x = sn ->
+       exists rid i, 0 <= i < div_ceil (blen p) f /\ x = mk_data_frag rid sn p f i) ->
+    ~ (forall i, 0 <= i < div_ceil (blen p) f -> exists rid, In (mk_data_frag rid sn p f i) l) ->
     reconstruct (fold_left push_frag l []) sn = Ok (None, fold_left push_frag l []).
 Proof. exact C05_incomplete_stmt. Qed.
 
 Theorem C05_never_a_wrong_payload :
-  forall f rid sn (p : bytes) (l : list frag) d b',
+  forall f sn (p : bytes) (l : list frag) d b',
     0 < f < 65536 -> blen p < two32 ->
-    (forall x, In x l -> fr_sn x = sn -> exists i, 0 <= i < div_ceil (blen p) f /\ x = mk_data_frag rid sn p f i) ->
+    (forall x, In x l -> fr_sn x = sn ->
+       exists rid i, 0 <= i < div_ceil (blen p) f /\ x = mk_data_frag rid sn p f i) ->
     reconstruct (fold_left push_frag l []) sn = Ok (Some d, b') -> d = p.
 Proof. exact C05_never_wrong_stmt. Qed.
 
 (* ------------------------------------------------------------------ whole system, all histories *)
 
-(* For EVERY history of the fault-schedule language (writes; deliveries of the writer's datagrams in
-   any order, any number of times, any subset; heartbeats; the reader's ACKNACK / NACK_FRAG fed to
-   the writer and the answers delivered; forged NACK_FRAGs), with a reliable or best-effort reader:
-   the reader only ever holds the payload that was written under that sequence number, each sequence
-   number at most once, in increasing order.  op_ok excludes hand-made fragments and fragments
-   addressed to another reader (known finding C05-mixed-readerid-truncation). *)
+(* For EVERY history of the fault-schedule language (writes; deliveries of the writer's datagrams —
+   including those addressed to the other reader of the participant — in any order, any number of
+   times, any subset; heartbeats; the reader's ACKNACK / NACK_FRAG fed to the writer and the answers
+   delivered; forged NACK_FRAGs), with a reliable or best-effort reader: the reader only ever holds the
+   payload that was written under that sequence number, each sequence number at most once, in
+   increasing order.  (op_ok: payloads below 4 GiB, no hand-made DATA_FRAGs.) *)
 Theorem C05_delivered_changes_are_byte_identical :
   forall rel nreaders f ops s obs,
     0 < f < 65536 -> Forall op_ok ops -> run (s_init rel nreaders f) ops = Ok (s, obs) ->
@@ -84,71 +88,22 @@ Theorem C05_delivered_changes_are_byte_identical :
 Proof. exact delivered_identical. Qed.
 
 (* RELIABLE reader expecting sample sn: as soon as every fragment has arrived — any order, any
-   duplication, interleaved with any other genuine traffic — it holds (sn, p). *)
+   duplication, addressed to whichever reader, interleaved with any other genuine traffic — it holds (sn, p) *)
 Theorem C05_complete_set_is_delivered :
   forall f ch sn p r ws,
     0 < f < 65536 -> history_ok ch -> lookup sn ch = Some p ->
     rinv f ch r -> r_rel r = true -> available_changes_max r + 1 = sn ->
-    ~ complete f 1 (r_buf r) sn p ->
+    ~ complete f (r_buf r) sn p ->
     Forall (wire_genuine f ch) ws ->
-    (forall i, 0 <= i < div_ceil (blen p) f -> In (WFrag (mk_data_frag 1 sn p f i)) ws) ->
+    (forall i, 0 <= i < div_ceil (blen p) f -> exists rid, In (WFrag (mk_data_frag rid sn p f i)) ws) ->
     exists r', r_deliver_all r ws = Ok r' /\ In (sn, p) (r_changes r').
-Proof. exact C05_complete_set_stmt. Qed.
+Proof. exact complete_set_is_delivered. Qed.
 
-(* ------------------------------------------------------------------ repair: FALSE on this code *)
-
-(* `nackfrag_not_filtered` is false: in every history the reader's nack_frag_count stays 0, every
-   NACK_FRAG it emits carries count 0, and the writer answers each of them with nothing *)
-Theorem C05_nackfrag_is_always_filtered :
-  forall rel nreaders f ops s obs,
-    run (s_init rel nreaders f) ops = Ok (s, obs) ->
-    r_nfcount (s_r s) = 0 /\
-    Forall2 (fun o b => (o = ONackFrag -> exists n, b = BResp [] n) /\
-                        (forall a nf, b = BReply (Some (a, Some nf)) -> n_count nf = 0)) ops obs.
-Proof. exact nackfrag_always_filtered. Qed.
-
-(* the `lost (reliable)` clause is false: once fragment j >= 1 (0-based) of sample sn is lost in the
-   first transmission, no continuation (other deliveries, heartbeats, ACKNACK and NACK_FRAG rounds,
-   further writes) ever gives the reader sample sn *)
-Theorem C05_lost_fragment_is_never_repaired :
-  forall rel nreaders f ps ops sn j p s obs,
-    0 < f < 65536 -> Forall (fun q => blen q < two32) ps ->
-    nth_written ps sn = Some p -> 1 <= j < div_ceil (blen p) f ->
-    Forall op_ok ops -> Forall (lost_op sn j) ops ->
-    run (s_init rel nreaders f) (map OWrite ps ++ ops) = Ok (s, obs) ->
-    ~ In sn (map fst (r_changes (s_r s))).
-Proof. exact lost_fragment_never_repaired. Qed.
-
-(* `nackfrag_numbering` is false: a NACK_FRAG that passes the filter is answered with the fragments
-   whose wire number is (requested number + 1) *)
-Theorem C05_nackfrag_resends_successor :
-  forall w count sn base set p,
-    0 < w_f w < 65536 -> blen p < two32 -> w_rel w = true -> w_last_nf w < count ->
-    lookup sn (w_changes w) = Some p ->
-    0 <= base -> Forall (fun k => 0 <= k) set ->
-    exists w' ws, w_on_nack_frag w count sn base set = Ok (w', ws) /\
-      ws = map (fun k => WFrag (mk_data_frag 1 sn p (w_f w) k))
-               (filter (fun k => k <? div_ceil (blen p) (w_f w)) (base :: set)) /\
-      forall fr, In (WFrag fr) ws ->
-        exists k, In k (base :: set) /\ k < div_ceil (blen p) (w_f w) /\ fr_start fr = k + 1.
-Proof. exact nackfrag_resends_successor. Qed.
-
-Theorem C05_nackfrag_never_resends_the_requested_fragment :
-  forall w count sn n p,
-    0 < w_f w < 65536 -> blen p < two32 -> w_rel w = true -> w_last_nf w < count ->
-    lookup sn (w_changes w) = Some p -> 1 <= n <= div_ceil (blen p) (w_f w) ->
-    exists w' ws, w_on_nack_frag w count sn n [n] = Ok (w', ws) /\
-      (forall fr, In (WFrag fr) ws -> fr_start fr = n + 1) /\
-      (n = div_ceil (blen p) (w_f w) -> ws = []).
-Proof. exact nackfrag_never_resends_requested. Qed.
-
-(* outside the classes C05-fragsize-zero-div, C05-nackfrag-none-missing-panic (no hand-made fragments,
-   no fragments addressed to another reader: op_ok) and C05-nackfrag-bitmap-overflow (every sample has
-   at most 256 fragments: small_op) no history panics *)
-Theorem C05_no_panic_outside_known_classes :
+(* no history panics.  What remains outside: data_max_size_serialized = 0 (the writer divides by it),
+   fragment sizes above 65535 (the u16 wire field), payloads of 4 GiB and more, hand-made fragments *)
+Theorem C05_no_panic :
   forall rel nreaders f ops,
-    0 < f < 65536 -> Forall op_ok ops -> Forall (small_op f) ops ->
-    exists s obs, run (s_init rel nreaders f) ops = Ok (s, obs).
+    0 < f < 65536 -> Forall op_ok ops -> exists s obs, run (s_init rel nreaders f) ops = Ok (s, obs).
 Proof. exact run_never_panics. Qed.
 
 (* the byte-identity oracle applied to the implementation's changes decides exactly the conclusion of
@@ -160,41 +115,120 @@ Theorem C05_identity_oracle_sound :
      forall sn d, In (sn, d) ch -> nth_written ws sn = Some d).
 Proof. exact identicalb_sound. Qed.
 
-(* ------------------------------------------------------------------ the known classes are inhabited *)
+(* ------------------------------------------------------------------ repair *)
 
-Theorem C05_witness_nackfrag_count_zero :
+(* `nackfrag_not_filtered`: after ANY history (no forged NACK_FRAGs, fewer than 2^31 - 1 operations) the
+   next heartbeat that makes the reader emit a NACK_FRAG gives it a count exactly one above the previous
+   one and strictly above everything the writer has seen: the writer processes it — the first one and
+   every later one — and answers with every requested fragment *)
+Theorem C05_every_nackfrag_is_processed :
+  forall rel nreaders f ops s obs,
+    Forall no_forged ops -> Z.of_nat (length ops) < i32_max ->
+    run (s_init rel nreaders f) ops = Ok (s, obs) ->
+    forall first last count final s' a nf,
+      step s (OHb first last count final) = Ok (s', BReply (Some (a, Some nf))) ->
+      n_count nf = r_nfcount (s_r s) + 1 /\ r_nfcount (s_r s') = n_count nf /\
+      w_last_nf (s_w s') < n_count nf /\
+      (forall sn' p', w_rel (s_w s') = true -> 0 < w_f (s_w s') < 65536 -> blen p' < two32 ->
+         lookup sn' (w_changes (s_w s')) = Some p' ->
+         exists ws, w_on_nack_frag (s_w s') (n_count nf) sn' (n_base nf) (n_set nf)
+                    = Ok (set_last_nf (s_w s') (n_count nf), ws) /\
+           forall k, In k (n_base nf :: n_set nf) -> 1 <= k <= div_ceil (blen p') (w_f (s_w s')) ->
+             In (WFrag (mk_data_frag 1 sn' p' (w_f (s_w s')) (k - 1))) ws).
+Proof. exact nackfrag_is_processed. Qed.
+
+(* `nackfrag_numbering`: a NACK_FRAG that passes the filter is answered with exactly the requested
+   fragments: wire number k (index k - 1) for every requested k in 1..total, the base once *)
+Theorem C05_nackfrag_resends_the_requested_fragments :
+  forall w count sn base set p,
+    0 < w_f w < 65536 -> blen p < two32 -> w_rel w = true -> w_last_nf w < count ->
+    lookup sn (w_changes w) = Some p ->
+    exists ws, w_on_nack_frag w count sn base set = Ok (set_last_nf w count, ws) /\
+      ws = map (fun k => WFrag (mk_data_frag 1 sn p (w_f w) (k - 1)))
+               (filter (fun k => (1 <=? k) && (k <=? div_ceil (blen p) (w_f w))) (nack_requests base set)) /\
+      (forall fr, In (WFrag fr) ws ->
+         exists k, In k (base :: set) /\ 1 <= k <= div_ceil (blen p) (w_f w) /\
+                   fr = mk_data_frag 1 sn p (w_f w) (k - 1) /\ fr_start fr = k) /\
+      (forall k, In k (base :: set) -> 1 <= k <= div_ceil (blen p) (w_f w) ->
+         In (WFrag (mk_data_frag 1 sn p (w_f w) (k - 1))) ws).
+Proof. exact nackfrag_resends_requested. Qed.
+
+(* the fragment resent for requested number n is fragment n, for every 1 <= n <= total (the last included) *)
+Theorem C05_nackfrag_for_n_resends_fragment_n :
+  forall w count sn n p,
+    0 < w_f w < 65536 -> blen p < two32 -> w_rel w = true -> w_last_nf w < count ->
+    lookup sn (w_changes w) = Some p -> 1 <= n <= div_ceil (blen p) (w_f w) ->
+    w_on_nack_frag w count sn n [n] =
+      Ok (set_last_nf w count, [WFrag (mk_data_frag 1 sn p (w_f w) (n - 1))]) /\
+    fr_start (mk_data_frag 1 sn p (w_f w) (n - 1)) = n.
+Proof. exact nackfrag_resends_fragment_n. Qed.
+
+(* REPAIR (the `lost (reliable)` clause).  rep: sample sn = p is written and fragmented, reliable reader
+   and writer.  pending L: the reader still waits for sn and holds ANY incomplete subset of its fragments
+   (any loss pattern) in which all numbers below L are present.  If at least one fragment arrived and all
+   missing ones lie within 256 of L, ONE round heartbeat -> ACKNACK/NACK_FRAG -> resend, with the resent
+   fragments delivered, completes the sample. *)
+Theorem C05_repair_one_round :
+  forall sn p first last L N c final s,
+    rep sn p last s -> cinv N s -> N + 3 <= i32_max -> r_hbcount (s_r s) < c ->
+    pending sn p first L s -> r_buf (s_r s) <> [] ->
+    div_ceil (blen p) (w_f (s_w s)) < L + 256 ->
+    exists s' obs, run s (round first last c final) = Ok (s', obs) /\ In (sn, p) (r_changes (s_r s')).
+Proof. exact repair_one_round. Qed.
+
+(* ... and in general, from ANY loss pattern (even all fragments lost), k + 1 rounds complete a sample of
+   fewer than 2 + 256 k fragments: the first round fetches at least fragment 1 (through the ACKNACK if
+   nothing arrived), every further round the next 256 fragment numbers *)
+Theorem C05_repair_k_rounds :
+  forall sn p first last k N c final s,
+    rep sn p last s -> cinv N s -> N + 3 * (1 + Z.of_nat k) <= i32_max -> r_hbcount (s_r s) < c ->
+    pending sn p first 1 s ->
+    div_ceil (blen p) (w_f (s_w s)) < 2 + 256 * Z.of_nat k ->
+    exists s' obs, run s (rounds first last c final (S k)) = Ok (s', obs) /\ In (sn, p) (r_changes (s_r s')).
+Proof. exact repair_k_rounds. Qed.
+
+(* ------------------------------------------------------------------ regressions and non-vacuity *)
+
+(* the inputs of the six repaired findings, on the model of the repaired code *)
+Theorem C05_regression_lost_fragment_is_repaired :
   exists s ack, run (s_init true 1 8) [OWrite p21; ODeliver 1 0 1; ODeliver 1 2 1; OHb 1 1 1 false; ONackFrag] =
     Ok (s, [BSent [WFrag (mk_data_frag 1 1 p21 8 0); WFrag (mk_data_frag 1 1 p21 8 1); WFrag (mk_data_frag 1 1 p21 8 2)];
-            BCount 0; BCount 0; BReply (Some (ack, Some (mkNf 1 2 [2] 0))); BResp [] 0]) /\
-    r_changes (s_r s) = [].
-Proof. exact witness_count_zero. Qed.
+            BCount 0; BCount 0; BReply (Some (ack, Some (mkNf 1 2 [2] 1)));
+            BResp [WFrag (mk_data_frag 1 1 p21 8 1)] 1]) /\
+    r_changes (s_r s) = [(1, p21)].
+Proof. exact regress_count_zero. Qed.
 
-Theorem C05_witness_nackfrag_off_by_one :
-  exists w', w_on_nack_frag (mkW 8 true 1 [(1, p21)] 0 0) 1 1 2 [2] =
-    Ok (w', [WFrag (mk_data_frag 1 1 p21 8 2); WFrag (mk_data_frag 1 1 p21 8 2)]) /\
-    fr_start (mk_data_frag 1 1 p21 8 2) = 3.
-Proof. exact witness_off_by_one. Qed.
+Theorem C05_regression_requested_fragment_is_resent :
+  (exists w', w_on_nack_frag (mkW 8 true 1 [(1, p21)] 0 0) 1 1 2 [2] =
+     Ok (w', [WFrag (mk_data_frag 1 1 p21 8 1)]) /\ fr_start (mk_data_frag 1 1 p21 8 1) = 2) /\
+  (exists w', w_on_nack_frag (mkW 8 true 1 [(1, p21)] 0 0) 1 1 3 [3] =
+     Ok (w', [WFrag (mk_data_frag 1 1 p21 8 2)]) /\ fr_start (mk_data_frag 1 1 p21 8 2) = 3).
+Proof. exact regress_off_by_one. Qed.
 
-Theorem C05_witness_fragment_size_zero_panics :
-  run (s_init true 1 8) [OForeign (mkfrag 1 1 1 1 0 21 [1; 2])] = Panic 28.
-Proof. exact witness_fragsize_zero. Qed.
+Theorem C05_regression_fragment_size_zero_is_ignored :
+  exists s, run (s_init true 1 8) [OForeign (mkfrag 1 1 1 1 0 21 [1; 2]); OHb 1 1 1 false] =
+    Ok (s, [BCount 0; BReply (Some (mkAck 1 [1] 1, None))]) /\ r_buf (s_r s) = [].
+Proof. exact regress_fragsize_zero. Qed.
 
-Theorem C05_witness_nackfrag_bitmap_overflow :
-  run (s_init true 1 8) [OWrite (repeat 7 2400); ODeliver 1 0 1; OHb 1 1 1 false] = Panic 123.
-Proof. exact witness_bitmap_overflow. Qed.
+Theorem C05_regression_300_fragments_two_rounds :
+  exists s obs, run (s_init true 1 8)
+      ([OWrite (repeat 7 2400); ODeliver 1 0 1] ++ rounds 1 1 1 false 2) = Ok (s, obs) /\
+    r_changes (s_r s) = [(1, repeat 7 2400)].
+Proof. exact regress_bitmap_overflow. Qed.
 
-Theorem C05_witness_mixed_readerid_truncates :
-  exists s obs, run (s_init true 2 8) [OWrite p29; ODeliver 1 0 1; ODeliver 1 1 1; ODeliver 1 0 2; ODeliver 1 1 2] =
-    Ok (s, obs) /\ r_changes (s_r s) = [(1, firstn 16 p29)] /\ firstn 16 p29 <> p29.
-Proof. exact witness_mixed_readerid. Qed.
+Theorem C05_regression_two_readers_full_payload :
+  exists s obs, run (s_init true 2 8)
+      [OWrite p29; ODeliver 1 0 1; ODeliver 1 1 1; ODeliver 1 0 2; ODeliver 1 1 2; ODeliver 1 2 2; ODeliver 1 3 1] =
+    Ok (s, obs) /\ r_changes (s_r s) = [(1, p29)].
+Proof. exact regress_mixed_readerid. Qed.
 
-Theorem C05_witness_none_missing_panics :
-  run (s_init true 2 8) [OWrite [1;2;3;4;5;6;7;8;9]; ODeliver 1 1 1; ODeliver 1 1 2; ODeliver 1 0 1; ODeliver 1 0 2;
-                         OHb 1 1 1 false] = Panic 4.
-Proof. exact witness_none_missing_panic. Qed.
+Theorem C05_regression_copies_before_first_fragment :
+  exists s obs, run (s_init true 2 8) [OWrite [1;2;3;4;5;6;7;8;9]; ODeliver 1 1 1; ODeliver 1 1 2; ODeliver 1 0 1; ODeliver 1 0 2;
+                         OHb 1 1 1 false] = Ok (s, obs) /\ r_changes (s_r s) = [(1, [1;2;3;4;5;6;7;8;9])].
+Proof. exact regress_none_missing. Qed.
 
-(* non-vacuity: a concrete reordered, duplicated, interleaved schedule of two samples meets the
-   hypotheses of C05_delivered_changes_are_byte_identical and delivers both *)
+(* non-vacuity: a reordered, duplicated, interleaved schedule of two samples meets the hypotheses of
+   C05_delivered_changes_are_byte_identical and delivers both *)
 Example C05_nonvacuous :
   exists s obs, run (s_init true 1 8)
     [OWrite p21; OWrite p29; ODeliver 2 1 1; ODeliver 1 2 1; ODeliver 1 0 1; ODeliver 1 2 1; ODeliver 2 0 1;
@@ -204,9 +238,17 @@ Proof. exact example_reordered. Qed.
 
 Example C05_nonvacuous_reassemble :
   reconstruct (fold_left push_frag
-     [mk_data_frag 1 1 p21 8 2; mk_data_frag 1 2 p29 8 0; mk_data_frag 1 1 p21 8 0; mk_data_frag 1 1 p21 8 2;
+     [mk_data_frag 1 1 p21 8 2; mk_data_frag 1 2 p29 8 0; mk_data_frag 2 1 p21 8 0; mk_data_frag 1 1 p21 8 2;
       mk_data_frag 1 1 p21 8 1] []) 1 = Ok (Some p21, [mk_data_frag 1 2 p29 8 0]).
 Proof. exact example_reassemble. Qed.
+
+(* non-vacuity of the repair theorems: 21 bytes, f = 8, fragment 2 lost — a reachable state that meets
+   every hypothesis of C05_repair_one_round (L = 1, N = 0, c = 1) *)
+Example C05_nonvacuous_repair :
+  exists s obs, run (s_init true 1 8) [OWrite p21; ODeliver 1 0 1; ODeliver 1 2 1] = Ok (s, obs) /\
+    rep 1 p21 1 s /\ cinv 0 s /\ pending 1 p21 1 1 s /\ r_buf (s_r s) <> [] /\ r_hbcount (s_r s) < 1 /\
+    div_ceil (blen p21) (w_f (s_w s)) < 1 + 256.
+Proof. exact example_repair_hypotheses. Qed.
 
 Print Assumptions C05_concat_of_fragments_is_payload.
 Print Assumptions C05_writer_emits_numbered_fragments.
@@ -216,15 +258,16 @@ Print Assumptions C05_incomplete_set_gives_nothing.
 Print Assumptions C05_never_a_wrong_payload.
 Print Assumptions C05_delivered_changes_are_byte_identical.
 Print Assumptions C05_complete_set_is_delivered.
-Print Assumptions C05_nackfrag_is_always_filtered.
-Print Assumptions C05_lost_fragment_is_never_repaired.
-Print Assumptions C05_nackfrag_resends_successor.
-Print Assumptions C05_nackfrag_never_resends_the_requested_fragment.
-Print Assumptions C05_no_panic_outside_known_classes.
+Print Assumptions C05_no_panic.
 Print Assumptions C05_identity_oracle_sound.
-Print Assumptions C05_witness_nackfrag_count_zero.
-Print Assumptions C05_witness_nackfrag_off_by_one.
-Print Assumptions C05_witness_fragment_size_zero_panics.
-Print Assumptions C05_witness_nackfrag_bitmap_overflow.
-Print Assumptions C05_witness_mixed_readerid_truncates.
-Print Assumptions C05_witness_none_missing_panics.
+Print Assumptions C05_every_nackfrag_is_processed.
+Print Assumptions C05_nackfrag_resends_the_requested_fragments.
+Print Assumptions C05_nackfrag_for_n_resends_fragment_n.
+Print Assumptions C05_repair_one_round.
+Print Assumptions C05_repair_k_rounds.
+Print Assumptions C05_regression_lost_fragment_is_repaired.
+Print Assumptions C05_regression_requested_fragment_is_resent.
+Print Assumptions C05_regression_fragment_size_zero_is_ignored.
+Print Assumptions C05_regression_300_fragments_two_rounds.
+Print Assumptions C05_regression_two_readers_full_payload.
+Print Assumptions C05_regression_copies_before_first_fragment.
